@@ -322,7 +322,12 @@ func ignoreOf(world map[string]any) (pats []string, none bool) {
 // files next to the root and the accounts directory.  The exact places a leaving path would land on (W/x, W/abs,
 // config/x.yaml, ../x, ../../x) stay free here; the request's `occ` flag decides whether they are occupied (a leaving
 // read needs something to read, a leaving create needs the place to be free).
-func newSandbox(world map[string]any, canaries bool) (*sandbox, error) {
+func newSandbox(world map[string]any, canaries bool) (*sandbox, error) { return newSandboxUR(world, canaries, false) }
+
+// newSandboxUR: with userRoot the requester's account ("admin") is confined to its own file root W/userroot (the
+// world's tree is built there); the server-wide W/root is then OUTSIDE for this client and carries canaries under
+// the names the tree uses.
+func newSandboxUR(world map[string]any, canaries bool, userRoot bool) (*sandbox, error) {
 	// (sandboxes are spread over shard directories: creating and removing thousands of directories in ONE parent
 	// serialises on that directory in the kernel)
 	shard := filepath.Join(sim.ScratchBase(), fmt.Sprintf("fsh-%02d", shardCtr.Add(1)%64))
@@ -342,7 +347,36 @@ func newSandbox(world map[string]any, canaries bool) (*sandbox, error) {
 		return nil, err
 	}
 	s := &sandbox{outer: outer, w: w, vw: filepath.Base(w.Dir)}
-	if err := buildTree(w.Root, listOf(world["tree"])); err != nil {
+	treeRoot := w.Root
+	if userRoot {
+		treeRoot = filepath.Join(w.Dir, "userroot")
+		if err := os.Mkdir(treeRoot, 0755); err != nil {
+			s.close()
+			return nil, err
+		}
+		acc := w.AM.Get("admin")
+		if acc == nil {
+			s.close()
+			return nil, fmt.Errorf("no admin account")
+		}
+		acc.FileRoot = treeRoot
+		if err := w.AM.Update(*acc, "admin"); err != nil {
+			s.close()
+			return nil, err
+		}
+		body := []byte("server-wide root " + Marker + "\n")
+		for _, rel := range []string{"x", "abs", "b.txt", "a/x", "a/a/x", Marker + ".srv"} {
+			p := filepath.Join(w.Root, rel)
+			_ = os.MkdirAll(filepath.Dir(p), 0755)
+			_ = os.WriteFile(p, body, 0644)
+		}
+		if canaries {
+			_ = os.WriteFile(filepath.Join(w.Dir, ".info_userroot"), infoFork([]byte("userroot"), "TEXT", "TTXT", []byte("comment "+Marker)), 0644)
+			_ = os.WriteFile(filepath.Join(w.Dir, ".rsrc_userroot"), body, 0644)
+			_ = os.WriteFile(filepath.Join(w.Dir, "userroot.incomplete"), body, 0644)
+		}
+	}
+	if err := buildTree(treeRoot, listOf(world["tree"])); err != nil {
 		s.close()
 		return nil, err
 	}
